@@ -150,7 +150,8 @@ func Run(run *ev.Run) {
 }
 
 func runConfig(run *ev.Run, set *bridge.Set, cfg config, perMethod int, rng *rand.Rand, smu *sync.Mutex, nsamples *int) {
-	srv, err := rig.NewServer(set, cfg.mounting, nil)
+	// every other configuration runs behind a filter that reads the path keys before the resource method does
+	srv, err := rig.NewServer(set, cfg.mounting, rig.WithKeyReadingFilter((cfg.threshold+len(cfg.mounting))%2 == 0))
 	if err != nil {
 		run.Inconclusive("cannot start server: " + err.Error())
 		return
